@@ -230,18 +230,22 @@ func init() {
 				}},
 		}}
 	properties["C13"] = &PropertySpec{ID: "C13",
-		Rule:        "18 capture-free bodies x 22 naming contexts (inline subroutine, global pattern referenced 1..3 times, prefix/suffix/loop/alternation contexts, nested globals) + 5 multi-command programs, x ASCII texts of length 0..T (quick 3, thorough 4); Run repeated, bytecode frozen during Run (write footprint), source recompiled",
+		Rule:        "18 capture-free bodies x 22 naming contexts (inline subroutine, global pattern referenced 1..3 times, prefix/suffix/loop/alternation contexts, nested globals) + 5 multi-command programs, x ASCII texts of length 0..T (quick 3, thorough 4); Run repeated, bytecode frozen during Run (write footprint), source recompiled; process code: two definitions sharing variable names (the 16 skeleton pairs of C12 x 6-expression menu) with one command each: the result of the combined source is the concatenation of the results of the commands alone, on the texts a, 1b (thorough also the empty text); the symbolic part is the choice of expressions",
 		Assumptions: []string{"ASCII text", "capture-free bodies (name clashes are by design)"},
 		Groups: []JobGroup{
 			{Name: "c13", Overlay: libOverlay("C13/c13.go"), Pkg: "libvore", Entry: "VerifC13", PanicOK: true,
 				Args: func(tier string, l *Loaded) [][]int64 {
 					return seqArgs(countOf(l, "libvore", "VerifC13Count"), tOf(tier, 3, 4), 0)
 				}},
+			{Name: "c13-procs", Overlay: map[string][]string{"libvore": {"common/lib.go", "C12/c12.go", "C13/c13_procs.go"}}, Pkg: "libvore", Entry: "VerifC13Procs", PanicOK: true, MaxFailures: 3,
+				Args: func(tier string, l *Loaded) [][]int64 {
+					return seqArgs(countOf(l, "libvore", "VerifC12PairCount"), tOf(tier, 1, 2))
+				}},
 			{Name: "c13-twin", Overlay: libOverlay("C13/c13.go"), Pkg: "libvore", Entry: "VerifC13", Twin: true, PanicOK: true,
 				Args: func(tier string, l *Loaded) [][]int64 { return [][]int64{{0, 2, 1}, {300, 2, 1}} }},
 		}}
 	engOverlay := map[string][]string{"engine": {"C11/c11.go"}, "bytecode": {"C11/bytecode_shim.go"}}
-	srcOverlay := map[string][]string{"libvore": {"common/lib.go", "C12/c12.go"}, "bytecode": {"C11/bytecode_shim.go"}}
+	srcOverlay := map[string][]string{"libvore": {"common/lib.go", "C12/c12.go"}}
 	kindPairs := func(mode int64, maxLen int64) [][]int64 {
 		var out [][]int64
 		for l := int64(0); l < 6; l++ {
@@ -283,14 +287,14 @@ func init() {
 		return out
 	}
 	properties["C11"] = &PropertySpec{ID: "C11",
-		Rule:        "real executeExpression vs the documented table: 13 binary operators (symbolic choice) x 6x6 operand kinds (string/number/bool literal or variable) with symbolic values: strings of length 0..2 (thorough 3) over ASCII, full 64-bit ints, bools; unary not/head/tail; depth-2 trees of both shapes with symbolic operators; precedence/associativity of the real Pratt parser for 1..3 (thorough 4) symbolic operators, minimal and full parentheses",
+		Rule:        "real executeExpression vs the documented table: 13 binary operators (symbolic choice) x 6x6 operand kinds (string/number/bool literal or variable) with symbolic values: strings of length 0..2 (thorough 3) over ASCII, full 64-bit ints, bools; unary not/head/tail; depth-2 trees of both shapes with symbolic operators; precedence/associativity of the real Pratt parser for 1..3 (thorough 4) symbolic operators, minimal and full parentheses; source level (exported entry points only): L op R and both parenthesised shapes of three operands written in a transform, compiled with Compile and evaluated by Run on a symbolic text of 1..2 (thorough 3) bytes over digits, '-', a, b, blank, operands head/tail of the match as string, as parsed number, as comparison, and matchLength; symbolic operator",
 		Assumptions: []string{"numbers rendered as decimal strings or parsed from strings are assumed in [-999,999] (conversion loops)", "division/modulo by zero excluded here (C09)", "expressions mixing ==/!= with </>/<=/>= are assumed away in the precedence check (statement silent)"},
 		Groups: []JobGroup{
-			{Name: "c11-binop", Overlay: engOverlay, Pkg: "engine", Entry: "VerifC11Binop",
+			{Name: "c11-binop", Overlay: engOverlay, Pkg: "engine", OptionalLoad: "drives the unexported evaluator and checker entry points directly; the source-level groups decide the property through Compile and Run", Entry: "VerifC11Binop",
 				Args: func(tier string, l *Loaded) [][]int64 { return kindPairs(11, tOf(tier, 2, 3)) }},
-			{Name: "c11-unary", Overlay: engOverlay, Pkg: "engine", Entry: "VerifC11Unary",
+			{Name: "c11-unary", Overlay: engOverlay, Pkg: "engine", OptionalLoad: "drives the unexported evaluator and checker entry points directly; the source-level groups decide the property through Compile and Run", Entry: "VerifC11Unary",
 				Args: func(tier string, l *Loaded) [][]int64 { return unary(11, tOf(tier, 2, 3)) }},
-			{Name: "c11-nested", Overlay: engOverlay, Pkg: "engine", Entry: "VerifC11Nested",
+			{Name: "c11-nested", Overlay: engOverlay, Pkg: "engine", OptionalLoad: "drives the unexported evaluator and checker entry points directly; the source-level groups decide the property through Compile and Run", Entry: "VerifC11Nested",
 				Args: func(tier string, l *Loaded) [][]int64 { return nested(11, tier) }},
 			{Name: "c11-prec", Overlay: srcOverlay, Pkg: "libvore", Entry: "VerifC11Prec",
 				Args: func(tier string, l *Loaded) [][]int64 {
@@ -299,18 +303,38 @@ func init() {
 					}
 					return [][]int64{{1, 0}, {2, 0}, {3, 0}}
 				}},
-			{Name: "c11-twin", Overlay: engOverlay, Pkg: "engine", Entry: "VerifC11Binop", Twin: true,
+			{Name: "c11-source", Overlay: map[string][]string{"libvore": {"common/lib.go", "C11/c11_src.go"}}, Pkg: "libvore", Entry: "VerifC11Src",
+				Args: func(tier string, l *Loaded) [][]int64 {
+					var out [][]int64
+					for lk := int64(0); lk < 4; lk++ {
+						for rk := int64(0); rk < 4; rk++ {
+							out = append(out, []int64{lk, rk, tOf(tier, 2, 3)})
+						}
+					}
+					return out
+				}},
+			{Name: "c11-source-nested", Overlay: map[string][]string{"libvore": {"common/lib.go", "C11/c11_src.go"}}, Pkg: "libvore", Entry: "VerifC11SrcNested",
+				Args: func(tier string, l *Loaded) [][]int64 {
+					var out [][]int64
+					for lk := int64(0); lk < 3; lk++ {
+						for rk := int64(0); rk < 3; rk++ {
+							out = append(out, []int64{lk, rk, 0}, []int64{lk, rk, 1})
+						}
+					}
+					return out
+				}},
+			{Name: "c11-twin", Overlay: engOverlay, Pkg: "engine", OptionalLoad: "vacuity twin of the white-box groups", Entry: "VerifC11Binop", Twin: true,
 				Args: func(tier string, l *Loaded) [][]int64 { return [][]int64{{1, 1, 11, 1, 1}} }},
 		}}
 	properties["C12"] = &PropertySpec{ID: "C12",
 		Rule:        "real checker vs the documented typing table: all 13 binary operators x 6x6 operand kinds, unary operators x 6 kinds, depth-2 trees with symbolic operators (accept iff table, inferred type = table type, accepted code evaluates to that type); 18 statement skeletons x 23-expression menu per hole (symbolic choice) in transform and predicate context through the real lexer/parser/checker/Compile, accepted programs run on the VM; two definitions in one source (4 assigning x 4 using skeletons, 8-expression menu per hole, second definition transform or predicate, both orders): accepted exactly when each definition is accepted alone",
 		Assumptions: []string{"each variable keeps one type (programs that re-type a variable are assumed away, as the property states)", "every loop of the statement skeletons terminates"},
 		Groups: []JobGroup{
-			{Name: "c12-binop", Overlay: engOverlay, Pkg: "engine", Entry: "VerifC11Binop",
+			{Name: "c12-binop", Overlay: engOverlay, Pkg: "engine", OptionalLoad: "drives the unexported checker and evaluator entry points directly; the statement-level groups decide the property through Compile", Entry: "VerifC11Binop",
 				Args: func(tier string, l *Loaded) [][]int64 { return kindPairs(12, tOf(tier, 1, 2)) }},
-			{Name: "c12-unary", Overlay: engOverlay, Pkg: "engine", Entry: "VerifC11Unary",
+			{Name: "c12-unary", Overlay: engOverlay, Pkg: "engine", OptionalLoad: "drives the unexported checker and evaluator entry points directly; the statement-level groups decide the property through Compile", Entry: "VerifC11Unary",
 				Args: func(tier string, l *Loaded) [][]int64 { return unary(12, tOf(tier, 1, 2)) }},
-			{Name: "c12-nested", Overlay: engOverlay, Pkg: "engine", Entry: "VerifC11Nested",
+			{Name: "c12-nested", Overlay: engOverlay, Pkg: "engine", OptionalLoad: "drives the unexported checker and evaluator entry points directly; the statement-level groups decide the property through Compile", Entry: "VerifC11Nested",
 				Args: func(tier string, l *Loaded) [][]int64 { return nested(12, tier) }},
 			{Name: "c12-stmt", Overlay: srcOverlay, Pkg: "libvore", Entry: "VerifC12Stmt",
 				Args: func(tier string, l *Loaded) [][]int64 { return seqArgs(countOf(l, "libvore", "VerifC12StmtCount"), 0) }},
